@@ -99,9 +99,9 @@ example : generalCmp .v2 .eq [.atom (.int 1), .atom (.str [97])] [.atom (.int 1)
     generalCmp .v2 .eq [.atom (.str [97]), .atom (.int 1)] [.atom (.int 1)] = .error .XPTY0004 := by
   decide +kernel
 
-/-- PARTIAL (findings F07, F07-promotion, F07-untyped).  One pair of a general comparison, any two
+/-- PARTIAL (findings F07, F07-promotion).  One pair of a general comparison, any two
 atoms of the 17 types (untypedAtomic included), any operator: if the pair is `PairClean` (EPV/Lemmas/
-CompareGeneral.lean: the three trigger predicates off, lexical fragment, timezones within ±14:00) the code — isinstance dispatch of iter_comparison_data, then the Python rich
+CompareGeneral.lean: the two trigger predicates off, lexical fragment, timezones within ±14:00) the code — isinstance dispatch of iter_comparison_data, then the Python rich
 comparison of the datatype classes, then the exception mapping — yields exactly the outcome of
 XPath 3.1 §3.7.2 (a)-(c) (cast of the untypedAtomic operand as dictated by the other operand) followed
 by the value comparison of §3.7.1: the same boolean, FORG0001 for a failed cast, XPTY0004 for
@@ -146,7 +146,7 @@ theorem general_cmp_conforms_partial (m : Mode) (op : Op) (L Rr : List Item) (hm
       allowedOfPairs ((product (L.map (atomize m)) (Rr.map (atomize m))).map (fun p => pairSpec m op p.1 p.2)) := by
     rcases hm with rfl | rfl <;> simp [generalAllowed, hat, hprod]
   rw [hga, hmap, general_is_any m op L Rr hcompat]
-  exact anyPairs_in_allowed (pairGeneral m op) _ (fun p hp => (hps p hp).2.2.2.2.1)
+  exact anyPairs_in_allowed (pairGeneral m op) _ (fun p hp => (hps p hp).2.2.2.1)
 
 /-! ## the implicit timezone of the dynamic context; purity -/
 
@@ -155,9 +155,24 @@ of timezone-less date/time operands pair by pair, on copies, just before the ope
 the context-free evaluator computes on the operands in which *every* timezone-less date/time value has
 been given the implicit timezone — the reading of XPath 3.1 §2.1.2.  Hence every theorem of this file
 about `generalCmp` / `valueCmp` transfers to any context (`general_cmp_conforms_ctx_partial`). -/
-theorem general_ctx_reduction (itz : Option Int) (m : Mode) (op : Op) (L Rr : List Item) (hm : m.compat = false) :
-    generalCmpCtx itz m op L Rr = generalCmp m op (L.map (withImplicitTz itz)) (Rr.map (withImplicitTz itz)) :=
-  generalCmpCtx_eq_filled itz m op L Rr hm
+theorem general_ctx_reduction (itz : Option Int) (m : Mode) (op : Op) (L Rr : List Item) (hm : m ≠ .v1) :
+    generalCmpCtx itz m op L Rr = generalCmp m op (L.map (withImplicitTz itz)) (Rr.map (withImplicitTz itz)) := by
+  cases m with
+  | v1 => exact absurd rfl hm
+  | v2c => exact generalCmpCtx_eq_filled_v2c itz op L Rr
+  | v2 => exact generalCmpCtx_eq_filled itz .v2 op L Rr rfl
+  | v31 => exact generalCmpCtx_eq_filled itz .v31 op L Rr rfl
+
+/-- the XPath 1.0 parser is excluded for a reason: its `=`/`!=` path compares the raw pairs without
+filling the timezone, so two dateTime values bound to variables are compared with the timezone-less
+one read as UTC whatever the context's implicit timezone (the 1.0 data model has no date/time values;
+not a finding) -/
+example :
+    let v : Item := .atom (.dtm ⟨63113907600, none⟩)
+    let w : Item := .atom (.dtm ⟨63113907600, some (-300)⟩)
+    generalCmpCtx (some (-300)) .v1 .eq [v] [w] = .ok false ∧
+    generalCmp .v1 .eq ([v].map (withImplicitTz (some (-300)))) ([w].map (withImplicitTz (some (-300)))) = .ok true ∧
+    generalCmpCtx (some (-300)) .v2c .eq [v] [w] = .ok true := by decide +kernel
 
 theorem value_ctx_reduction (itz : Option Int) (m : Mode) (op : Op) (L Rr : List Item) :
     valueCmpCtx itz m op L Rr = valueCmp m op (L.map (withImplicitTz itz)) (Rr.map (withImplicitTz itz)) :=
@@ -175,8 +190,7 @@ theorem general_cmp_conforms_ctx_partial (itz : Option Int) (m : Mode) (op : Op)
       PairClean m op (atomize m x) (atomize m y)) :
     ∃ allowed, generalAllowedCtx itz m op L Rr = some allowed ∧
       outOfR (generalCmpCtx itz m op L Rr) ∈ allowed := by
-  have hcompat : m.compat = false := by rcases hm with rfl | rfl <;> rfl
-  rw [general_ctx_reduction itz m op L Rr hcompat]
+  rw [general_ctx_reduction itz m op L Rr (by rcases hm with rfl | rfl <;> simp)]
   exact general_cmp_conforms_partial m op _ _ hm hclean
 
 /-- the year-boundary history case: 2001-01-01T01:00:00 (no timezone) against
@@ -241,6 +255,32 @@ theorem compat_v2c_conforms_partial (op : Op) (L Rr : List Item)
     (hclean : ∀ a ∈ L.map (atomize .v2c), ∀ b ∈ Rr.map (atomize .v2c), PairClean .v2c op a b) :
     ∃ allowed, generalAllowed .v2c op L Rr = some allowed ∧ outOfR (generalCmp .v2c op L Rr) ∈ allowed :=
   compat_v2c_conforms op L Rr ht hclean
+
+/-- PARTIAL (finding F07-compat).  The same under a dynamic context with implicit timezone `itz`, against
+the specification evaluated on the operands in which every timezone-less date/time value has taken the
+implicit timezone (XPath 2.0 §2.1.2): the hypotheses are those of `compat_v2c_conforms_partial` on the
+filled operands. -/
+theorem compat_v2c_conforms_ctx_partial (itz : Option Int) (op : Op) (L Rr : List Item)
+    (ht : CmpFind.trigCompat .v2c op ((L.map (withImplicitTz itz)).map (atomize .v2c))
+      ((Rr.map (withImplicitTz itz)).map (atomize .v2c))
+      ((L.map (withImplicitTz itz)).any CmpFind.isNode) ((Rr.map (withImplicitTz itz)).any CmpFind.isNode) = false)
+    (hclean : ∀ a ∈ (L.map (withImplicitTz itz)).map (atomize .v2c),
+      ∀ b ∈ (Rr.map (withImplicitTz itz)).map (atomize .v2c), PairClean .v2c op a b) :
+    ∃ allowed, generalAllowedCtx itz .v2c op L Rr = some allowed ∧
+      outOfR (generalCmpCtx itz .v2c op L Rr) ∈ allowed := by
+  rw [general_ctx_reduction itz .v2c op L Rr (by simp)]
+  exact compat_v2c_conforms op _ _ ht hclean
+
+/-- the hypotheses are satisfiable with a date that takes the implicit timezone: under -05:00,
+`$d = $e` for 2001-01-01T01:00:00 (no timezone) and 2001-01-01T06:00:00Z -/
+example :
+    let v : Item := .atom (.dtm ⟨63113907600, none⟩)
+    let w : Item := .atom (.dtm ⟨63113925600, some 0⟩)
+    CmpFind.trigCompat .v2c .eq (([v].map (withImplicitTz (some (-300)))).map (atomize .v2c))
+      (([w].map (withImplicitTz (some (-300)))).map (atomize .v2c)) false false = false ∧
+    generalCmpCtx (some (-300)) .v2c .eq [v] [w] = .ok true ∧
+    generalCmpCtx none .v2c .eq [v] [w] = .ok false ∧
+    generalAllowedCtx (some (-300)) .v2c .eq [v] [w] = some [.t] := by decide +kernel
 
 /-- the hypotheses are satisfiable: a node-set `< 2` (all items numeric strings), `true() >= $x` -/
 example :
@@ -383,32 +423,32 @@ theorem if_and {α} (a b : R) (t e : Except Err α) : ifE (andE a b) t e = ifE a
 
 /-- PARTIAL (findings F07, F07-promotion).  For every pair of atoms (any of the 17 types,
 untypedAtomic already turned into a string as get_atomized_operand does), every operator and every
-2.0+ parser mode: if the pair is outside the two trigger predicates — two doubles (or two floats
-under eq/ne) that differ but are `isclose`; a mixed numeric pair whose xs:float promotion differs
-between binary32 and binary64 — and no integer overflows the double range, the code's value
+2.0+ parser mode: if the pair is outside the two trigger predicates — two xs:float values under eq/ne
+that differ but are `isclose`; a mixed numeric pair whose xs:float promotion differs
+between binary32 and binary64 — the code's value
 comparison returns exactly what XPath 3.1 §3.7.1 + B.2 says: the same boolean, or XPTY0004 on
 exactly the incomparable type pairs (ordering of yearMonthDurations, which the code computes through
 four `months2days` calendar offsets, included: `durCmp4_ymd`).  The full statement (no trigger hypotheses) is false:
-`double_eq_tolerance_witness`, `float_promotion_witness`.
+`float_eq_and_lt_witness`, `float_promotion_witness`.
 (string/untyped against QName is covered at full strength since the `fix:` commit for F07-qname.) -/
 theorem value_cmp_conforms_partial (m : Mode) (op : Op) (a b : Atom)
     (hua : isUA a = false) (hub : isUA b = false)
-    (hTol : trigTol true op a b = false) (hProm : trigPromotion true a b = false)
+    (hTol : trigTol op a b = false) (hProm : trigPromotion a b = false)
     (hTa : atomTzOK a = true) (hTb : atomTzOK b = true) :
     valuePair m op a b = valueOp (binOrdered m) op a b :=
   valuePair_conforms m op a b hua hub hTol hProm (dtConsistent_of_tzOK a b hTa hTb)
 
 /-- the hypotheses are satisfiable on non-trivial pairs: 2^53+1 against a double, a decimal against a
 float, two different close-but-not-too-close doubles -/
-example : trigTol true .lt (.dbl (.fin 1)) (.dbl (.fin (1 + 1 / 8388608))) = false ∧
-    trigPromotion true (.int 9007199254740993) (.dbl (.fin 9007199254740992)) = false ∧
+example : trigTol .lt (.dbl (.fin 1)) (.dbl (.fin (1 + 1 / 8388608))) = false ∧
+    trigPromotion (.int 9007199254740993) (.dbl (.fin 9007199254740992)) = false ∧
     valuePair .v2 .eq (.int 9007199254740993) (.dbl (.fin 9007199254740992)) = .ok true ∧
-    trigPromotion true (.dec (3 / 2)) (.flt (.fin (3 / 2))) = false := by decide +kernel
+    trigPromotion (.dec (3 / 2)) (.flt (.fin (3 / 2))) = false := by decide +kernel
 
 /-- INCOMPARABLE ⇒ XPTY0004 (and only then): corollary of the previous theorem. -/
 theorem incomparable_XPTY0004 (m : Mode) (op : Op) (a b : Atom)
     (hua : isUA a = false) (hub : isUA b = false)
-    (hTol : trigTol true op a b = false) (hProm : trigPromotion true a b = false)
+    (hTol : trigTol op a b = false) (hProm : trigPromotion a b = false)
     (hTa : atomTzOK a = true) (hTb : atomTzOK b = true) :
     valuePair m op a b = .error .XPTY0004 ↔ valueOp (binOrdered m) op a b = .error .XPTY0004 := by
   rw [valuePair_conforms m op a b hua hub hTol hProm (dtConsistent_of_tzOK a b hTa hTb)]
@@ -442,7 +482,7 @@ atoms is outside the triggers. -/
 theorem value_seq_conforms_partial (m : Mode) (op : Op) (L Rr : List Item) (hm : m ≠ .v1)
     (hpair : ∀ x y, L = [x] → Rr = [y] →
       let a := castUAStr (atomize m x); let b := castUAStr (atomize m y)
-      trigTol true op a b = false ∧ trigPromotion true a b = false ∧
+      trigTol op a b = false ∧ trigPromotion a b = false ∧
       atomTzOK a = true ∧ atomTzOK b = true ∧ valueOp (binOrdered m) op a b ≠ .error .unsupported) :
     ∃ allowed, valueAllowed m op L Rr = some allowed ∧ outOfOR (valueCmp m op L Rr) ∈ allowed := by
   have hat : ∀ x, atomizeS m x = atomize m x := by intro x; cases x <;> rfl
@@ -489,25 +529,23 @@ theorem value_cmp_order_decimal :
   cases a <;> simp [isIntDec] at ha <;> cases b <;> simp [isIntDec] at hb <;> vpn_simp <;>
     cases op <;> simp [six, numLt, numEq, D.val, exactQ] <;> first | rfl | grind
 
-/-- PARTIAL (finding F07).  xs:double: outside the tolerance trigger the six operators are the IEEE
-order of the two values, which on non-NaN values is an equivalence / strict total order (−0 = +0).
-The full statement is false: `double_eq_tolerance_witness`, `double_eq_not_transitive`. -/
-theorem value_cmp_order_partial :
-    (∀ (m : Mode) (op : Op) (x y : D), tolClose x y = false →
+/-- xs:double: the six operators are the IEEE order of the two values, which on non-NaN values is an
+equivalence / strict total order (−0 = +0).  (The relative tolerance that made this false — finding F07
+on doubles — is repaired on fix-c07-5: `double_eq_fixed`.) -/
+theorem value_cmp_order_double :
+    (∀ (m : Mode) (op : Op) (x y : D),
       valuePair m op (.dbl x) (.dbl y) = .ok (six numLt numEq op x y)) ∧
     OrderLawsOn (fun d : D => d.isNaN = false) numLt numEq := by
   refine ⟨?_, doubleLaws⟩
-  intro m op x y h
-  have := valuePair_conforms m op (.dbl x) (.dbl y) rfl rfl (by simp [trigTol, h])
+  intro m op x y
+  have := valuePair_conforms m op (.dbl x) (.dbl y) rfl rfl (by simp [trigTol])
     (by simp [trigPromotion, numRank])
     rfl
   simpa [valueOp, numRank, castNum] using this
 
-/-- the hypothesis is satisfiable with different values: 1 and 1 + 2^-23 are not close -/
-example : tolClose (.fin 1) (.fin (1 + 1 / 8388608)) = false ∧
-    valuePair .v2 .lt (.dbl (.fin 1)) (.dbl (.fin (1 + 1 / 8388608))) = .ok true := by decide +kernel
-
-/-- xs:float: same, the tolerance only enters eq / ne -/
+/-- PARTIAL (finding F07).  xs:float: the six operators are the IEEE order of the two values **outside
+the tolerance trigger**, which only enters eq / ne.  The full statement is false:
+`float_eq_and_lt_witness`, `float_eq_not_transitive`. -/
 theorem value_cmp_order_float_partial (m : Mode) (op : Op) (x y : D)
     (h : (op.isEqNe && tolClose x y) = false) :
     valuePair m op (.flt x) (.flt y) = .ok (six numLt numEq op x y) := by
@@ -515,6 +553,10 @@ theorem value_cmp_order_float_partial (m : Mode) (op : Op) (x y : D)
     (by simp [trigPromotion, numRank])
     rfl
   simpa [valueOp, numRank, castNum] using this
+
+/-- the hypothesis is satisfiable with different values: 1 and 1 + 2^-22 are not close -/
+example : tolClose (.fin 1) (.fin (1 + 1 / 4194304)) = false ∧
+    valuePair .v2 .eq (.flt (.fin 1)) (.flt (.fin (1 + 1 / 4194304))) = .ok false := by decide +kernel
 
 /-- NaN is unequal to, and unordered with, every numeric value — also across types (the tolerance
 never applies to NaN) -/
@@ -655,28 +697,34 @@ theorem value_cmp_order_binary :
 /-- the double nearest to 1.00000001 -/
 def d1_00000001 : D := .fin (1125899918101623 / 1125899906842624)
 
-/-- F07: `1.0e0 eq 1.00000001e0` is true, `=` is false, `lt` is false, `ge` is true; the specification
-says eq false, lt true, ge false; the trigger holds -/
-theorem double_eq_tolerance_witness :
-    valueCmp .v2 .eq [.atom (.dbl (.fin 1))] [.atom (.dbl d1_00000001)] = .ok (some true) ∧
+/-- (fixed, F07 on xs:double) `1.0e0 eq 1.00000001e0` is false, `lt` true, `ge` false, as the
+specification says, and like `=` -/
+theorem double_eq_fixed :
+    valueCmp .v2 .eq [.atom (.dbl (.fin 1))] [.atom (.dbl d1_00000001)] = .ok (some false) ∧
     generalCmp .v2 .eq [.atom (.dbl (.fin 1))] [.atom (.dbl d1_00000001)] = .ok false ∧
-    valueCmp .v2 .lt [.atom (.dbl (.fin 1))] [.atom (.dbl d1_00000001)] = .ok (some false) ∧
-    valueCmp .v2 .ge [.atom (.dbl (.fin 1))] [.atom (.dbl d1_00000001)] = .ok (some true) ∧
+    valueCmp .v2 .lt [.atom (.dbl (.fin 1))] [.atom (.dbl d1_00000001)] = .ok (some true) ∧
+    valueCmp .v2 .ge [.atom (.dbl (.fin 1))] [.atom (.dbl d1_00000001)] = .ok (some false) ∧
     valueAllowed .v2 .eq [.atom (.dbl (.fin 1))] [.atom (.dbl d1_00000001)] = some [.f] ∧
     valueAllowed .v2 .lt [.atom (.dbl (.fin 1))] [.atom (.dbl d1_00000001)] = some [.t] ∧
-    trigTol true .eq (.dbl (.fin 1)) (.dbl d1_00000001) = true := by decide +kernel
+    trigValue .v2 .eq [.atom (.dbl (.fin 1))] [.atom (.dbl d1_00000001)] = [] := by decide +kernel
 
-/-- F07: `eq` on doubles is not transitive: 1 eq 1+2^-24, 1+2^-24 eq 1+2^-23, but not 1 eq 1+2^-23 -/
-theorem double_eq_not_transitive :
-    valuePair .v2 .eq (.dbl (.fin 1)) (.dbl (.fin (1 + 1 / 16777216))) = .ok true ∧
-    valuePair .v2 .eq (.dbl (.fin (1 + 1 / 16777216))) (.dbl (.fin (1 + 1 / 8388608))) = .ok true ∧
-    valuePair .v2 .eq (.dbl (.fin 1)) (.dbl (.fin (1 + 1 / 8388608))) = .ok false := by decide +kernel
+/-- F07: `eq` on xs:float is not transitive: with a = 2 - 3·2^-23, b = 2 - 2·2^-23, c = 2 - 2^-23 (three
+consecutive binary32 values) a eq b, b eq c, but not a eq c; the specification (exact comparison) says
+false, false, false -/
+theorem float_eq_not_transitive :
+    valuePair .v2 .eq (.flt (.fin (2 - 3 / 8388608))) (.flt (.fin (2 - 2 / 8388608))) = .ok true ∧
+    valuePair .v2 .eq (.flt (.fin (2 - 2 / 8388608))) (.flt (.fin (2 - 1 / 8388608))) = .ok true ∧
+    valuePair .v2 .eq (.flt (.fin (2 - 3 / 8388608))) (.flt (.fin (2 - 1 / 8388608))) = .ok false ∧
+    valueOp false .eq (.flt (.fin (2 - 3 / 8388608))) (.flt (.fin (2 - 2 / 8388608))) = .ok false ∧
+    trigTol .eq (.flt (.fin (2 - 3 / 8388608))) (.flt (.fin (2 - 2 / 8388608))) = true := by decide +kernel
 
-/-- F07 on xs:float: two adjacent binary32 values just below 2 are `eq` *and* `lt` -/
+/-- F07 on xs:float: two adjacent binary32 values just below 2 are `eq` *and* `lt`; the
+specification says eq false -/
 theorem float_eq_and_lt_witness :
-    valuePair .v2 .eq (.flt (.fin (2 - 2 / 16777216))) (.flt (.fin (2 - 1 / 16777216))) = .ok true ∧
-    valuePair .v2 .lt (.flt (.fin (2 - 2 / 16777216))) (.flt (.fin (2 - 1 / 16777216))) = .ok true ∧
-    trigTol true .eq (.flt (.fin (2 - 2 / 16777216))) (.flt (.fin (2 - 1 / 16777216))) = true := by
+    valuePair .v2 .eq (.flt (.fin (2 - 2 / 8388608))) (.flt (.fin (2 - 1 / 8388608))) = .ok true ∧
+    valuePair .v2 .lt (.flt (.fin (2 - 2 / 8388608))) (.flt (.fin (2 - 1 / 8388608))) = .ok true ∧
+    valueOp false .eq (.flt (.fin (2 - 2 / 8388608))) (.flt (.fin (2 - 1 / 8388608))) = .ok false ∧
+    trigTol .eq (.flt (.fin (2 - 2 / 8388608))) (.flt (.fin (2 - 1 / 8388608))) = true := by
   decide +kernel
 
 /-- (fixed, F07-qname) `'a' eq xs:QName('a')` raises XPTY0004 as the specification says -/
@@ -685,16 +733,17 @@ theorem string_qname_fixed :
     valueOp false .eq (.str [97]) (.qn [] [] [97]) = .error .XPTY0004 := by decide +kernel
 
 /-- F07-promotion: `16777217 eq xs:float(16777216)` is false (the integer is converted to binary64), true
-after promotion to xs:float (binary32); `xs:untypedAtomic('9007199254740992') = 9007199254740993` is false
-(the double is compared exactly with the integer), true after promotion of the integer to xs:double.
-(fixed) `9007199254740993 = 9007199254740992e0` is true, like `eq`. -/
+after promotion to xs:float (binary32).
+(fixed) `xs:untypedAtomic('9007199254740992') = 9007199254740993` is true (the integer is promoted to
+xs:double, the type the untyped operand is cast to), on either side, and
+`9007199254740993 = 9007199254740992e0` is true, like `eq`. -/
 theorem float_promotion_witness :
     valuePair .v2 .eq (.int 16777217) (.flt (.fin 16777216)) = .ok false ∧
     valueOp false .eq (.int 16777217) (.flt (.fin 16777216)) = .ok true ∧
-    trigPromotion true (.int 16777217) (.flt (.fin 16777216)) = true ∧
-    pairGeneral .v2 .eq (.ua [57,48,48,55,49,57,57,50,53,52,55,52,48,57,57,50]) (.int 9007199254740993) = .ok false ∧
+    trigPromotion (.int 16777217) (.flt (.fin 16777216)) = true ∧
+    pairGeneral .v2 .eq (.ua [57,48,48,55,49,57,57,50,53,52,55,52,48,57,57,50]) (.int 9007199254740993) = .ok true ∧
+    pairGeneral .v2 .eq (.int 9007199254740993) (.ua [57,48,48,55,49,57,57,50,53,52,55,52,48,57,57,50]) = .ok true ∧
     pairSpec .v2 .eq (.ua [57,48,48,55,49,57,57,50,53,52,55,52,48,57,57,50]) (.int 9007199254740993) = .ok true ∧
-    trigPromotion false (.ua [57,48,48,55,49,57,57,50,53,52,55,52,48,57,57,50]) (.int 9007199254740993) = true ∧
     pairGeneral .v2 .eq (.int 9007199254740993) (.dbl (.fin 9007199254740992)) = .ok true ∧
     pairSpec .v2 .eq (.int 9007199254740993) (.dbl (.fin 9007199254740992)) = .ok true := by
   decide +kernel
@@ -714,15 +763,21 @@ theorem untyped_order_fixed :
     pairGeneral .v2 .lt (.ua [49, 48]) (.ua [57]) = .ok true ∧
     pairSpec .v2 .lt (.ua [49, 48]) (.ua [57]) = .ok true := by decide +kernel
 
-/-- (fixed) `xs:untypedAtomic('abc') = 1.5` raises FORG0001; what remains of F07-untyped:
-`xs:QName('a') = xs:untypedAtomic(' a ')` is false (the lexical forms are compared as strings), the
-specification casts the untyped value (true in 3.1) -/
-theorem untyped_witness :
+/-- (fixed, F07-untyped) `xs:untypedAtomic('abc') = 1.5` raises FORG0001;
+`xs:QName('a') = xs:untypedAtomic(' a ')` is true in 3.1 (the untyped value is cast, on either side) and
+raises XPTY0004 with a 2.0 parser (XPath 2.0 does not permit that cast), on either side;
+`xs:anyURI('a') = xs:untypedAtomic(' a ')` is true (cast to xs:anyURI: white space collapsed) -/
+theorem untyped_fixed :
     pairGeneral .v2 .eq (.ua [97, 98, 99]) (.dec (3 / 2)) = .error .FORG0001 ∧
     pairSpec .v2 .eq (.ua [97, 98, 99]) (.dec (3 / 2)) = .error .FORG0001 ∧
-    pairGeneral .v31 .eq (.qn [] [] [97]) (.ua [32, 97, 32]) = .ok false ∧
+    pairGeneral .v31 .eq (.qn [] [] [97]) (.ua [32, 97, 32]) = .ok true ∧
     pairSpec .v31 .eq (.qn [] [] [97]) (.ua [32, 97, 32]) = .ok true ∧
-    trigUntypedQN .v31 (.qn [] [] [97]) (.ua [32, 97, 32]) = true := by decide +kernel
+    pairGeneral .v31 .eq (.ua [32, 97, 32]) (.qn [] [] [97]) = .ok true ∧
+    pairGeneral .v2 .eq (.qn [] [] [97]) (.ua [97]) = .error .XPTY0004 ∧
+    pairGeneral .v2 .eq (.ua [97]) (.qn [] [] [97]) = .error .XPTY0004 ∧
+    pairSpec .v2 .eq (.ua [97]) (.qn [] [] [97]) = .error .XPTY0004 ∧
+    pairGeneral .v2 .eq (.uri [97]) (.ua [32, 97, 32]) = .ok true ∧
+    pairSpec .v2 .eq (.uri [97]) (.ua [32, 97, 32]) = .ok true := by decide +kernel
 
 /-- F07-compat: with the XPath 1.0 parser `'1' = 1` is false and `'abc' < 1` raises FORG0001;
 XPath 1.0 §3.4 says true resp. false -/
